@@ -4,6 +4,7 @@ import (
 	"errors"
 	"fmt"
 	"math"
+	"sort"
 	"strings"
 
 	"github.com/freeconf/yang/val"
@@ -255,6 +256,11 @@ func (c *compiler) identity(y *Identity) error {
 		}
 		y.base = append(y.base, identity)
 		identity.derived = append(identity.derived, y)
+		// identities are compiled in the order a map gives them, the derived ones are
+		// listed the same way after every load
+		sort.Slice(identity.derived, func(i, j int) bool {
+			return identity.derived[i].ident < identity.derived[j].ident
+		})
 		if err := c.compile(identity); err != nil {
 			return err
 		}
